@@ -54,6 +54,13 @@ func (cb *CellBuffer) SetContent(x int, y int,
 	if x >= 0 && y >= 0 && x < cb.w && y < cb.h {
 		c := &cb.cells[(y*cb.w)+x]
 
+		// NUL is displayed as a space and is stored as one: a clean cell
+		// never holds NUL (see SetDirty), so storing it again unchanged
+		// must not look like a change
+		if mainc == rune(0) {
+			mainc = ' '
+		}
+
 		// Wide characters: we want to mark the "wide" cells
 		// dirty as well as the base cell, to make sure we consider
 		// both cells as dirty together.  We only need to do this
@@ -223,6 +230,9 @@ func (cb *CellBuffer) Resize(w, h int) {
 func (cb *CellBuffer) Fill(r rune, style Style) {
 	// zero width (control, combining, format or invalid) runes must keep
 	// their zero width, so that GetContent presents them as blanks
+	if r == rune(0) {
+		r = ' ' // as in SetContent
+	}
 	width := runewidth.RuneWidth(r)
 	if width > 1 {
 		width = 1
